@@ -1,5 +1,7 @@
 package document
 
+import "bytes"
+
 // C18: rendering a document template changes only its placeholders.
 
 // zzhFullDocument: a document whose body holds a fully populated paragraph, table (with a nested
@@ -222,4 +224,126 @@ func ZZH_C18_PlaceholderAcrossRuns() {
 		zzvAssert(fmtOK, "placeholders: every character keeps the formatting of the run it came from; a value takes the formatting of the run holding the placeholder's first character")
 	}
 	zzvReach("substituted")
+}
+
+// ---- image placeholders ----
+
+// zzhEmbedOf: the relationship id a picture paragraph embeds ("" if the paragraph holds no picture).
+func zzhEmbedOf(p *Paragraph) string {
+	for _, r := range p.Runs {
+		if r.Drawing == nil {
+			continue
+		}
+		var g *DrawingGraphic
+		if r.Drawing.Inline != nil {
+			g = r.Drawing.Inline.Graphic
+		} else if r.Drawing.Anchor != nil {
+			g = r.Drawing.Anchor.Graphic
+		}
+		if g != nil && g.GraphicData != nil && g.GraphicData.Pic != nil && g.GraphicData.Pic.BlipFill != nil && g.GraphicData.Pic.BlipFill.Blip != nil {
+			return g.GraphicData.Pic.BlipFill.Blip.Embed
+		}
+	}
+	return ""
+}
+
+var zzhImagePlaceholders = []struct{ text, name string }{{"{{#image a}}", "a"}, {"{{#image b}}", "b"}, {"[IMAGE:a]", "a"}, {"[IMAGE:b]", "b"}}
+
+// A paragraph whose text is  t0 P1 t1 [P2 t2]  - the P image placeholders of either spelling
+// for the names a and b (equal or different, so the same placeholder may occur twice), the t
+// solver-chosen texts (nothing, a symbolic letter, a letter between blanks, [thorough: a blank]) - cut into two
+// runs at the start, inside or at the end: processImagePlaceholdersInParagraph yields, in reading order, one
+// paragraph per non-blank text holding exactly that text, and per placeholder the picture of
+// that name (resolving through its relationship to exactly that image's bytes) or, without
+// data, a visible marker; nothing else.
+func ZZH_C18_ImagePlaceholders() {
+	type want struct {
+		text string
+		pic  string
+	}
+	var wants []want
+	full := ""
+	kinds := zzvBound("text_kinds", 3, 4)
+	text := func() {
+		t := ""
+		switch zzvChoice(kinds) {
+		case 1:
+			t = zzvByteString(1)
+			zzvAssume(len(t) == 1 && t[0] >= 'a' && t[0] <= 'z')
+		case 2:
+			w := zzvByteString(1)
+			zzvAssume(len(w) == 1 && w[0] >= 'a' && w[0] <= 'z')
+			t = " " + w + " "
+		case 3:
+			t = " "
+		}
+		full += t
+		if t != "" && t != " " {
+			wants = append(wants, want{text: t})
+		}
+	}
+	hasB := zzvBool()
+	text()
+	n := 1 + zzvChoice(2)
+	for i := 0; i < n; i++ {
+		ph := zzhImagePlaceholders[zzvChoice(len(zzhImagePlaceholders))]
+		full += ph.text
+		if ph.name == "a" || hasB {
+			wants = append(wants, want{pic: ph.name})
+		} else {
+			wants = append(wants, want{text: "[图片未找到: b]"})
+		}
+		text()
+	}
+	// the cut only decides which run a text paragraph is cloned from: start, inside, end
+	cut := [...]int{0, 5, len(full)}[zzvChoice(3)]
+	if cut > len(full) {
+		cut = len(full)
+	}
+	para := &Paragraph{Runs: []Run{{Text: Text{Content: full[:cut]}}, {Text: Text{Content: full[cut:]}}}}
+	imgs := map[string][]byte{"a": append(append([]byte{}, zzhPNG...), 'A'), "b": append(append([]byte{}, zzhPNG...), 'B')}
+	td := NewTemplateData()
+	td.Images["a"] = &TemplateImageData{Data: imgs["a"]}
+	if hasB {
+		td.Images["b"] = &TemplateImageData{Data: imgs["b"]}
+	}
+	doc := New()
+	te := NewTemplateEngine()
+	out, err := te.processImagePlaceholdersInParagraph(para, td, doc)
+	zzvAssert(err == nil, "image placeholders: processing succeeds")
+	if err != nil {
+		return
+	}
+	zzvAssert(len(out) == len(wants), "image placeholders: one paragraph per non-blank text and per placeholder, nothing else")
+	if len(out) != len(wants) {
+		return
+	}
+	for i, w := range wants {
+		p, isPara := out[i].(*Paragraph)
+		zzvAssert(isPara && p != nil, "image placeholders: every resulting element is a paragraph")
+		if !isPara || p == nil {
+			return
+		}
+		got := ""
+		for _, r := range p.Runs {
+			got += r.Text.Content
+		}
+		if w.pic == "" {
+			zzvAssert(got == w.text && zzhEmbedOf(p) == "", "image placeholders: the text between placeholders is kept, in reading order")
+			continue
+		}
+		id := zzhEmbedOf(p)
+		zzvAssert(id != "" && got == "", "image placeholders: a placeholder with data becomes a picture paragraph")
+		cnt, target := 0, ""
+		for _, r := range doc.documentRelationships.Relationships {
+			if r.ID == id {
+				cnt++
+				target = r.Target
+			}
+		}
+		zzvAssert(cnt == 1, "image placeholders: the picture's relationship id names exactly one relationship")
+		part, present := doc.parts["word/"+target]
+		zzvAssert(present && bytes.Equal(part, imgs[w.pic]), "image placeholders: each picture resolves to the bytes supplied for its name")
+	}
+	zzvReach("image placeholders processed")
 }
